@@ -23,3 +23,29 @@ def Raises(thunk, kind):
 
 def implies(a, b):
     return (not a) or b
+
+
+def is_fresh(obj):
+    """The object was created by the call under contract (not an alias of something that existed before).
+    Natively this cannot be observed after the fact and is True; the prover checks the allocation site."""
+    return True
+
+
+def Binds(func, args, kwargs):
+    """func(datum, *args, **kwargs) binds to func's signature (no TypeError from argument passing)."""
+    import inspect
+    try:
+        inspect.signature(func).bind(None, *args, **kwargs)
+    except TypeError:
+        return False
+    return True
+
+
+def forall_idx(n, pred):
+    """pred(j) for every 0 <= j < n."""
+    return all(pred(j) for j in range(n))
+
+
+def ApplyCallable(func, datum, args, kwargs):
+    """func(datum, *args, **kwargs): the call a prepared condition callable makes."""
+    return func(datum, *args, **kwargs)
